@@ -531,7 +531,7 @@ P_Close ==
   /\ IF Top.kind = "Inc" THEN
         \* include(): the included file's temporary section ends, its children go into the caller's section
         IF "TrailingIgnored" \notin Dev /\ Cur.ln + 1 < Len(CurLns)
-        THEN Finish(ErrP("trailing", Cur.f, LineNo + 1))
+        THEN Finish(ErrP("trailing", Cur.f, LineNo))         \* the `}` that closed a section the file never opened
         ELSE /\ pstk' = Pop(pstk) /\ sstk' = PushVals(Pop(sstk), Top.vals)
              /\ UNCHANGED <<cid, phase, tree, acc, res>>
      ELSE IF Len(sstk) = 1 THEN
